@@ -66,7 +66,9 @@ def listOf (cfg : Cfg) (st : St) (q : Query) : List Rec :=
 
 def findingOf (cfg : Cfg) (q : Query) (store : List Rec) (causes : List String) (l : List Rec := []) : List String :=
   let stale (id : String) := if causes.isEmpty then [] else [id]
-  let window := if q.slot.isTime && (q.fromT.isSome || q.toT.isSome) && !bsAllLt cfg then ["C07-window-bounds-operator"] else []
+  let outside (b : Option Int) : Bool := match b with | some x => decide (x < minInt64) || decide (x > maxInt64) | none => false
+  let window := (if q.slot.isTime && (q.fromT.isSome || q.toT.isSome) && !bsAllLt cfg then ["C07-window-bounds-operator"] else []) ++
+    (if q.slot.isTime && !cfg.windowBoundsChecked && (outside q.fromT || outside q.toT) then ["C07-window-bound-wraps"] else [])
   let cold (f : Bool) := if !f && store.any (fun r => !carries q.slot r) then ["C07-cold-build-no-zero-filter"] else []
   match q.slot with
   | .value t =>
@@ -214,7 +216,7 @@ def run (args : List String) : IO UInt32 := do
     typeChangeDetected := yes kv "typeChangeDetected", valueShared := yes kv "valueShared",
     flagsSticky := yes kv "flagsSticky", setVoidClearsTyped := yes kv "setVoidClearsTyped",
     initialisedAfterFill := yes kv "initialisedAfterFill", refileGuardExpire := yes kv "refileGuardExpire",
-    patchExpiredReindexesAll := yes kv "patchExpiredReindexesAll" }
+    patchExpiredReindexesAll := yes kv "patchExpiredReindexesAll", windowBoundsChecked := yes kv "windowBoundsChecked" }
   lineLoop step { cfg := cfg, s := St.init }
   return 0
 
